@@ -132,13 +132,13 @@ def _conc_jobs(tier):
     # (mode, preemption bound): mode 0 two first uses of mutually nested types, 1 first use + steady state,
     # 2 all three goroutines, 3 the same fresh type from two goroutines
     if tier == 'quick':
-        combos = [(0, 2), (1, 2), (3, 2), (4, 2), (2, 1), (6, 1), (7, 1), (5, -1)]
+        combos = [(0, 2), (1, 2), (3, 2), (4, 2), (2, 1), (6, 1), (7, 1), (5, -1), (8, 2), (9, 1)]
     else:
-        combos = [(0, 4), (1, 4), (3, 4), (4, 4), (2, 2), (6, 2), (7, 2), (5, 2)]
+        combos = [(0, 4), (1, 4), (3, 4), (4, 4), (2, 2), (6, 2), (7, 2), (5, 1), (8, 3), (9, 2)]   # (mode 5 with 2 preemptions exceeded the path budget in a measured run)
     jobs = [{'id': 'conc/mode%d/pb%d' % (m, max(pb, 0)), 'entry': FPKG + '.VerifConcurrent', 'setup': FPKG + '.VerifSetupConc', 'reach': ['end'],
              'cfg': {'params': {'mode': m}, 'preemption_bound': pb, 'step_limit': 2000000000}, 'tags': ['conc', 'C08'], 'no_tv': True} for m, pb in combos]
     # the same with every Pool.Get missing (fresh objects) instead of LIFO hand-over between goroutines
-    for m, pb in ([(2, 1), (6, -1)] if tier == 'quick' else [(2, 2), (6, 1), (5, 1)]):
+    for m, pb in ([(2, 1), (6, -1), (8, 1)] if tier == 'quick' else [(2, 2), (6, 1), (5, 1), (8, 2)]):
         jobs.append({'id': 'conc/mode%d/pb%d/poolmiss' % (m, max(pb, 0)), 'entry': FPKG + '.VerifConcurrent', 'setup': FPKG + '.VerifSetupConc', 'reach': ['end'],
                      'cfg': {'params': {'mode': m, 'pool': 1}, 'preemption_bound': pb, 'step_limit': 2000000000}, 'tags': ['conc', 'C08'], 'no_tv': True})
     return jobs
@@ -268,7 +268,7 @@ MANIFEST_TEXT['C12'] = {
 MANIFEST_TEXT['C08'] = {
     'level': 'BOUNDED (context-bounded schedules x symbolic data) plus discipline invariants. (a) Schedule exploration on the real code: k goroutines (k = 2..4) making concurrent first uses of '
              'mutually nested types, first use next to steady-state calls, the same fresh type twice, a nested type used top-level during the registration that nests it, and a failing (rolled back) '
-             'registration next to first uses of the types it nests; the executor switches goroutines at every synchronisation operation (atomic slot load/store, Mutex/RWMutex with blocking semantics, '
+             'registration next to first uses of the types it nests, and steady-state-only callers of the same registered types (maps, lists of structs, by-value struct map values); the executor switches goroutines at every synchronisation operation (atomic slot load/store, Mutex/RWMutex with blocking semantics, '
              'sync.Pool Get/Put, start/end) and enumerates every schedule with <= P preemptions (quick P=2/1/0 for 2/3/4 goroutines, thorough P=4/2/2); field values are symbolic. Checked on every schedule: '
              'vector-clock happens-before race detection on every plain access and Go-map operation, deadlock, no crash, and size / n / err / bytes / decoded value equal to independently written expected '
              'results (= the sequential execution). (b) Discipline invariants on all registrations and steady-state calls of the codec/decmsg/hist harnesses: descriptor-map protocol under symbolic keys incl. '
